@@ -55,7 +55,8 @@ PNAMES = ('px', 'py', 'pz')
 
 def def_universes(tier):
     if tier == 'quick':
-        return [(('a', 'b', 'c'), ('x', 'y')), (('a', 'b', 'c'), ('a', 'y'))]
+        return [(('a', 'b', 'c'), ('x', 'y')), (('a', 'b', 'c'), ('a', 'y')),
+                (('a', 'b'), ('x', 'y', 'z'))]
     return [(('a', 'b', 'c'), ('x', 'y', 'z')), (('a', 'b', 'c'), ('a', 'y', 'z')),
             (('a', 'b'), ('x', 'y', 'z'))]
 
